@@ -14,7 +14,7 @@ func init() {
 	register(&Property{
 		ID:        "C19",
 		Title:     "IPAM never gives one address to two live allocations",
-		Technique: "static analysis: value provenance (backward slices with parameter→call-site propagation), error-edge reachability and ordering on go/ssa of libcalico-go/lib/ipam",
+		Technique: "static analysis: value provenance (backward slices with parameter→call-site propagation), error-edge reachability, ordering, guard cuts and struct-field coverage on go/ssa of libcalico-go/lib/ipam",
 		DesignRef: "DESIGN.md §3 C19",
 		Explanation: "Decides the compare-and-swap discipline that the design names as the mechanism: (cas) every *model.KVPair reaching Client.Update/DeleteKVP — directly or through any helper that forwards a pair parameter " +
 			"(updateBlock, deleteBlock, updateAffinity, deleteAffinity, updateHandle, deleteHandle, confirmAffinity, claimAffineBlock, getBlockFromAffinity, assignFromExistingBlock, decrementHandle, ...) — is a pair returned by a backend " +
@@ -22,8 +22,12 @@ func init() {
 			"`pair.Revision != \"\"`; Client.Delete's revision is a read pair's Revision; Revision/UID/Key of a pair are never assigned outside a literal; (noapply) Client.Apply (which ignores revisions) is only called with a literal IPAMConfigKey pair; " +
 			"(errchk) on the error edge of every datastore write (or, if the error is dropped, on the continuation) no `return …, nil` is reachable without re-executing the read that produced the pair, retrying a write of the same pair, or the error being " +
 			"AlreadyExists for Create / DoesNotExist for Delete; (handle) wherever incrementHandle is called, the block write cannot be reached without it when a handle is given, and on the block write's error edge every path to a return or to a " +
-			"re-increment passes decrementHandle, and the compensating decrementHandle is called with the same handle id, block CIDR and count (same SSA value, equal constants or the same pure access path) as every incrementHandle that reaches that block write.",
-		NotDecided: "Interleavings themselves (that CAS on revision linearises writers is the datastore's contract); the arithmetic inside allocationBlock.autoAssign/assign/release — in particular that an ordinal stored into Allocations is removed from the Unallocated queue wherever it sits (an off-by-one in the guard of assign's removal, e.g. `slices.Index(...) > 0`, is not detected: deciding it needs search-sentinel / loop-exhaustion reasoning about slice contents, one recogniser per coding idiom); that the count passed to incrementHandle equals the number of addresses the block write records (today it is the number requested: the handle may over-count); that callers of exported entry points taking a pair " +
+			"re-increment passes decrementHandle, and the compensating decrementHandle is called with the same handle id, block CIDR and count (same SSA value, equal constants or the same pure access path) as every incrementHandle that reaches that block write; " +
+			"(handledel) every call that hands a pair holding an IPAM handle record (read under IPAMHandleKey / IPAMHandleListOptions, a literal with such a key, or a pair whose Value is asserted to *model.IPAMHandle) to Client.DeleteKVP — directly or through forwarding helpers — is only reachable across the edge of a test that establishes len(handle.Block) == 0 " +
+			"(any comparison spelling, or an in-package predicate all of whose returns are such a test, e.g. allocationHandle.empty) for the handle taken from the Value of that very pair, in the function itself, in the helper the pair is handed to, or — when pair and handle are both parameters — at every call site; " +
+			"(attreq) every in-package function whose result is stored as the attribute index of an ordinal in AllocationBlock.Allocations and that inspects existing model.AllocationAttribute values (findOrAddAttribute) either compares whole structs (reflect.DeepEqual on AllocationAttribute operands) or reads every field of AllocationAttribute in its static call closure, " +
+			"so an entry is never shared between allocations that differ in handle, active/alternate owner attributes or the released-at stamp (a cooling-down entry cannot become the record of a live allocation).",
+		NotDecided: "That a field-wise attribute comparison which reads every field also compares it correctly (attreq is a coverage condition); that allocationHandle.decrementBlock removes a block whose count reaches zero (handledel relies on len(Block)); interleavings themselves (that CAS on revision linearises writers is the datastore's contract); the arithmetic inside allocationBlock.autoAssign/assign/release — in particular that an ordinal stored into Allocations is removed from the Unallocated queue wherever it sits (an off-by-one in the guard of assign's removal, e.g. `slices.Index(...) > 0`, is not detected: deciding it needs search-sentinel / loop-exhaustion reasoning about slice contents, one recogniser per coding idiom); that the count passed to incrementHandle equals the number of addresses the block write records (today it is the number requested: the handle may over-count); that callers of exported entry points taking a pair " +
 			"(GarbageCollectColdIPs) pass a pair they read; crash windows between the handle write and the block write (handle may over-count); failures of composite clean-ups after a committed block write " +
 			"(decrementHandle, ensureConsistentAffinity in the release paths are only logged: the address is already released).",
 		Assumptions: []string{
@@ -67,6 +71,14 @@ func init() {
 				Old: "c.decrementHandle(cleanupCtx, *handleID, blockCIDR, num, nil)", New: "c.decrementHandle(cleanupCtx, *handleID, blockCIDR, len(ips), nil)", Expect: "C19.handle/ipamClient.assignFromExistingBlock/rollback-mirror"},
 			{Name: "AssignIP rolls the handle back under the address's /32 instead of the block it incremented", File: "libcalico-go/lib/ipam/ipam.go",
 				Old: "c.decrementHandle(cleanupCtx, *args.HandleID, blockCIDR, 1, nil)", New: "c.decrementHandle(cleanupCtx, *args.HandleID, *args.IP.Network(), 1, nil)", Expect: "C19.handle/ipamClient.AssignIP/rollback-mirror"},
+			{Name: "handle record deleted once it has no IPv4 addresses left (dual-stack handle keeps IPv6 addresses)", File: "libcalico-go/lib/ipam/ipam.go",
+				Old: "\t\tif handle.empty() {", New: "\t\tif handle.totalCountByVersion(4) == 0 {", Expect: "C19.handledel/ipamClient.decrementHandle/deleteHandle"},
+			{Name: "handle record deleted when the block being decremented drops out of it (other blocks still linked)", File: "libcalico-go/lib/ipam/ipam.go",
+				Old: "\t\tif handle.empty() {", New: "\t\tif _, linked := handle.Block[blockCIDR.String()]; !linked {", Expect: "C19.handledel/ipamClient.decrementHandle/deleteHandle"},
+			{Name: "attribute de-duplication compares owner fields but not ReleasedAt (cooling-down entry reused for a live allocation)", File: "libcalico-go/lib/ipam/ipam_block.go",
+				Old: "if reflect.DeepEqual(attr, existing) {", New: "if reflect.DeepEqual(attr.HandleID, existing.HandleID) && reflect.DeepEqual(attr.ActiveOwnerAttrs, existing.ActiveOwnerAttrs) && len(existing.AlternateOwnerAttrs) == 0 {", Expect: "C19.attreq/allocationBlock.findOrAddAttribute/ReleasedAt"},
+			{Name: "attribute de-duplication ignores the handle (address recorded under another handle's entry)", File: "libcalico-go/lib/ipam/ipam_block.go",
+				Old: "if reflect.DeepEqual(attr, existing) {", New: "if existing.ReleasedAt == nil && existing.AlternateOwnerAttrs == nil && reflect.DeepEqual(attrs, existing.ActiveOwnerAttrs) {", Expect: "C19.attreq/allocationBlock.findOrAddAttribute/HandleID"},
 		},
 	})
 }
@@ -114,10 +126,14 @@ func runC19(c *Ctx) {
 	c.Rule("C19.noapply", "E-OWN", "Client.Apply (revision-blind) is only called with a literal pair whose key is not a block/affinity/handle key", 1)
 	c.Rule("C19.errchk", "E-ERR", "error edge (or dropped-error continuation) of every datastore write reaches no `return …, nil` without re-read / same-pair retry / AlreadyExists(Create) / DoesNotExist(Delete)", 38)
 	c.Rule("C19.handle", "E-ORDER", "incrementHandle precedes the block write when a handle is given; on the block write's error edge decrementHandle precedes every return and every re-increment, and that decrementHandle passes the same handle, block and count as the incrementHandle it undoes", 6)
-	c19Cas(c, m)
+	c.Rule("C19.handledel", "E-GUARD", "a handle record is deleted from the datastore only on the true edge of a test that the handle held by the very pair being deleted has no blocks left (len(handle.Block) == 0, directly or through a predicate such as allocationHandle.empty)", 3)
+	c.Rule("C19.attreq", "E-FIELDS", "a function that yields the attribute index recorded for an allocation shares an existing Attributes entry only if it is equal in every field of model.AllocationAttribute: whole-struct equality, or a comparison that reads every field", 2)
+	sites := c19Cas(c, m)
 	c19NoApply(c, m)
 	c19ErrChk(c, m)
 	c19Handle(c, m)
+	c19HandleDel(c, m, sites)
+	c19AttrEq(c, m)
 }
 
 // ------------------------------------------------------------------ C19.cas --
@@ -129,7 +145,7 @@ func (m *c19Model) siteLeaves(s *c19Site) []c19Leaf {
 	return m.prov(s.arg)
 }
 
-func c19Cas(c *Ctx, m *c19Model) {
+func c19Cas(c *Ctx, m *c19Model) []*c19Site {
 	p := m.p
 	sites := map[ssa.Instruction]map[int]*c19Site{}
 	var order []*c19Site
@@ -316,6 +332,7 @@ func c19Cas(c *Ctx, m *c19Model) {
 		})
 	}
 	c.Ok("C19.cas/identity-fields", p.Pos(m.funcs[0].Pos()), "Key/Revision/UID are only stored into pair literals under construction (%d stores)", nLit)
+	return order
 }
 
 // -------------------------------------------------------------- C19.noapply --
@@ -722,5 +739,219 @@ func c19Handle(c *Ctx, m *c19Model) {
 	}
 	if n == 0 {
 		c.Lost("no caller of incrementHandle")
+	}
+}
+
+// ------------------------------------------------------------ C19.handledel --
+
+// c19HandleDel: the handle record must agree with the block records, so it may
+// only disappear when the handle has no block left.  For every call that hands
+// a pair holding an IPAM handle to a DeleteKVP (directly or through forwarding
+// helpers), every path to the call crosses the "empty" edge of a test of
+// len(handle.Block) for the handle stored in that pair — in the function
+// itself, or in the helper the pair is handed to.
+func c19HandleDel(c *Ctx, m *c19Model, sites []*c19Site) {
+	p := m.p
+	h := c19NewHandleModel(c, m)
+	byFn := map[*ssa.Function][]*c19Site{}
+	for _, s := range sites {
+		if s.mode == "pair" && s.prims["DeleteKVP"] {
+			byFn[s.fn] = append(byFn[s.fn], s)
+		}
+	}
+	if len(byFn) == 0 {
+		c.Lost("no call reaching Client.DeleteKVP in %s", c19Pkg)
+	}
+	// inner: the delete sites inside the helper called at s that the pair argument is forwarded to
+	inner := func(s *c19Site) []*c19Site {
+		g := calleeFn(s.instr.Common())
+		if g == nil || !m.inPkg(g) || s.argIdx >= len(g.Params) {
+			return nil
+		}
+		par := g.Params[s.argIdx]
+		var out []*c19Site
+		for _, s2 := range byFn[g] {
+			for _, o := range origins(s2.arg, m.through) {
+				if o.V == par {
+					out = append(out, s2)
+					break
+				}
+			}
+		}
+		return out
+	}
+	// guarded: every path to the call establishes emptiness of the handle in the pair
+	// argument — in the function itself, or in the helper the pair is handed to.
+	var guarded func(s *c19Site, up []ssa.CallInstruction) bool
+	guarded = func(s *c19Site, up []ssa.CallInstruction) bool {
+		pred := func(cond ssa.Value, pol bool) bool {
+			for _, b := range h.emptyBases(cond, pol, 0) {
+				if h.relates(b, s.arg, up) {
+					return true
+				}
+			}
+			return false
+		}
+		if guardedCut(s.instr, pred) {
+			return true
+		}
+		if len(up) >= 3 {
+			return false
+		}
+		in := inner(s)
+		for _, s2 := range in {
+			if !guarded(s2, append(append([]ssa.CallInstruction{}, up...), s.instr)) {
+				return false
+			}
+		}
+		return len(in) > 0
+	}
+	kinds := map[*c19Site]c19RecordKind{}
+	var fns []*ssa.Function
+	for f, ss := range byFn {
+		fns = append(fns, f)
+		for _, s := range ss {
+			kinds[s] = h.recordKind(s.arg, s.fn, 0)
+		}
+	}
+	sort.Slice(fns, func(i, j int) bool { return fns[i].Pos() < fns[j].Pos() })
+	nHandle, nOther := 0, 0
+	otherKeys := map[string]bool{}
+	for _, f := range fns {
+		for _, s := range byFn[f] {
+			k := kinds[s]
+			key := "C19.handledel/" + fnName(s.fn) + "/" + s.callee
+			site := p.Pos(s.instr.Pos())
+			switch {
+			case k.Handle:
+				nHandle++
+				if guarded(s, nil) {
+					c.Ok(key, site, "every path on which the handle pair reaches DeleteKVP through %s crosses the edge where the handle it holds has no blocks left", s.callee)
+					continue
+				}
+				// the handle under test may be handed in next to the pair: decide per caller
+				if cs := m.callSites[s.fn]; len(cs) > 0 && !m.valueUse[s.fn] && !c19Exported(s.fn) {
+					all := true
+					for _, ci := range cs {
+						if !guarded(s, []ssa.CallInstruction{ci}) {
+							all = false
+						}
+					}
+					if all {
+						c.Ok(key, site, "the handle tested for emptiness before %s is the one held by the pair at each of the %d call site(s) of %s", s.callee, len(cs), fnName(s.fn))
+						continue
+					}
+				}
+				// reported once, at the innermost site that knows it deletes a handle
+				if in := inner(s); len(in) > 0 {
+					deferred := true
+					for _, s2 := range in {
+						if !kinds[s2].Handle {
+							deferred = false
+						}
+					}
+					if deferred {
+						c.Ok(key, site, "the pair is handed to %s, whose own delete of the handle is decided there (C19.handledel/%s/…)", s.callee, fnName(in[0].fn))
+						continue
+					}
+				}
+				c.Violate(key, site, "in %s a pair holding an IPAM handle can reach %s (→ DeleteKVP) without a test that this handle has no blocks left (len(handle.Block) == 0 / allocationHandle.empty() on the handle stored in that pair): the handle record is deleted while blocks still record addresses allocated to it, so IPsByHandle/ReleaseByHandle no longer find them and the per-handle accounting restarts from zero", fnName(s.fn), s.callee)
+			case k.Unknown && len(k.Keys) == 0 && len(k.Params) == 0:
+				c.Undecided(key, site, "cannot tell what kind of record the pair handed to %s in %s holds (neither read with a typed key here, nor a literal, nor a parameter)", s.callee, fnName(s.fn))
+			default:
+				// parameters: decided at the call sites (which are in the list); other key types: not a handle
+				nOther++
+				for _, kt := range k.Keys {
+					otherKeys[kt] = true
+				}
+			}
+		}
+	}
+	if nHandle == 0 {
+		c.Lost("no delete of an IPAM handle record found in %s (decrementHandle used to delete the handle once empty)", c19Pkg)
+	}
+	c.Ok("C19.handledel/other-records", p.Pos(fns[0].Pos()), "%d other delete site(s) forward a parameter or delete records read under %s (block deletes: C21.blockdel / C22.empty)", nOther, c19SortedSet(otherKeys))
+}
+
+// --------------------------------------------------------------- C19.attreq --
+
+// c19AttrEq: Allocations[ordinal] holds an index into Attributes; several
+// ordinals may share one entry.  Sharing is only sound between allocations
+// whose attribute is equal in every field (owner handle, active and alternate
+// owner attributes, and the released-at stamp that marks a cooling-down entry).
+func c19AttrEq(c *Ctx, m *c19Model) {
+	p := m.p
+	lookup := func(name string) *types.Named {
+		o := p.LookupExt(c19ModelPkg, name)
+		if o == nil {
+			c.Lost("model.%s", name)
+		}
+		n, _ := types.Unalias(o.Type()).(*types.Named)
+		if n == nil {
+			c.Lost("model.%s is not a named type", name)
+		}
+		return n
+	}
+	attrT := lookup("AllocationAttribute")
+	blockT := lookup("AllocationBlock")
+	var allocsField, attrsField *types.Var
+	if st, _ := blockT.Underlying().(*types.Struct); st != nil {
+		for i := 0; i < st.NumFields(); i++ {
+			switch st.Field(i).Name() {
+			case "Allocations":
+				allocsField = st.Field(i)
+			case "Attributes":
+				attrsField = st.Field(i)
+			}
+		}
+	}
+	if allocsField == nil || attrsField == nil {
+		c.Lost("model.AllocationBlock.Allocations / Attributes")
+	}
+	if sl, ok := attrsField.Type().Underlying().(*types.Slice); !ok || !types.Identical(types.Unalias(sl.Elem()), attrT) {
+		c.Lost("model.AllocationBlock.Attributes is no longer []AllocationAttribute")
+	}
+	fields := structFieldNames(attrT, false)
+	if len(fields) < 4 {
+		c.Lost("model.AllocationAttribute: expected ≥4 fields (handle, active/alternate owner attributes, released-at), found %v", fields)
+	}
+	prods, nStores := c19AttrIndexProducers(m, allocsField)
+	if nStores == 0 || len(prods) == 0 {
+		c.Lost("no store of a computed attribute index into AllocationBlock.Allocations found in %s (%d stores)", c19Pkg, nStores)
+	}
+	var fs []*ssa.Function
+	for f := range prods {
+		fs = append(fs, f)
+	}
+	sort.Slice(fs, func(i, j int) bool { return fs[i].Pos() < fs[j].Pos() })
+	nDedup := 0
+	for _, f := range fs {
+		reach := reachableFuncs([]*ssa.Function{f}, nil)
+		for g := range reach {
+			if !m.inPkg(g) {
+				delete(reach, g)
+			}
+		}
+		site := p.Pos(f.Pos())
+		name := fnName(f)
+		read := fieldsRead(reach, attrT)
+		whole := c19WholeStructEquality(reach, attrT)
+		switch {
+		case whole != nil:
+			nDedup++
+			c.Ok("C19.attreq/"+name, site, "existing entries are matched with a whole-struct equality (%s): every field of AllocationAttribute is distinguished (%d store(s) of its result into Allocations)", p.Pos(whole.Pos()), len(prods[f]))
+		case len(read) == 0:
+			c.Ok("C19.attreq/"+name, site, "never inspects an existing AllocationAttribute: always yields a fresh entry (%d store(s) of its result into Allocations)", len(prods[f]))
+		default:
+			nDedup++
+			for _, fl := range fields {
+				c.Check(len(read[fl]) > 0, "C19.attreq/"+name+"/"+fl, site,
+					"AllocationAttribute."+fl+" is read when matching an existing entry",
+					name+" yields the attribute index recorded in Allocations and matches existing Attributes entries field by field, but never reads AllocationAttribute."+fl+" (nor does anything it calls) and uses no whole-struct equality: an existing entry that differs from the new allocation's attribute only in "+fl+" is shared with it, so the block records the address with that entry's "+fl+" (another handle / another owner / the released-at stamp of an address that is cooling down) instead of the caller's")
+			}
+		}
+	}
+	if nDedup == 0 {
+		c.Lost("no attribute-index producer matches existing Attributes entries any more (findOrAddAttribute used to de-duplicate them)")
 	}
 }
